@@ -56,6 +56,9 @@ func (n *dNode) Process(ctx context.Context, e *eventlogger.Event) (*eventlogger
 	case 'r':
 		out = &eventlogger.Event{Type: e.Type, CreatedAt: e.CreatedAt, Formatted: map[string][]byte{}, Payload: fmt.Sprintf("repl-%d-%d", n.p, n.k)}
 	case 'd':
+	case 'E': // an error together with a non-nil event: the error must still end the traversal
+		out = e
+		err = dErr{n.p, n.k}
 	default:
 		err = dErr{n.p, n.k}
 	}
@@ -347,7 +350,7 @@ func runDispatch(c dispCase, seed uint64, st *stats, oracle func(string, ...any)
 		// stop index
 		stop := len(outs) - 1
 		for k := 0; k < len(outs); k++ {
-			if outs[k] == 'd' || outs[k] == 'e' {
+			if outs[k] == 'd' || outs[k] == 'e' || outs[k] == 'E' {
 				stop = k
 				break
 			}
@@ -449,7 +452,7 @@ func genDispCase(p *prng) dispCase {
 		l := 2 + p.intn(4)
 		b := make([]byte, l)
 		for k := range b {
-			b[k] = "pppprrde"[p.intn(8)]
+			b[k] = "pppprrdeE"[p.intn(9)]
 		}
 		if p.chance(1, 2) {
 			b[l-1] = 'd' // sinks return (nil,nil)
